@@ -80,6 +80,8 @@ def has_mode(m, mode):
     return mc6809.opcode_of(m, mode) is not None
 
 
+EQU_NAMES = ["V", "AB", "VAL", "BD", "ABD", "XS", "V", "DPC", "UY", "PCX"]
+
 # quick tier: row classes that get every spelling also through an EQU symbol (values outside -32768..65535 included)
 EQU_ALL_SPELLINGS = ("ADCA", "ADDD", "ASL", "BCC", "ABX", "LEAS")
 
@@ -139,8 +141,11 @@ class AsmForms:
         if lit:
             txt, val = literal(env, sp)
             if via == "equ":
-                lines.append(env.text("V EQU ", txt, "\n"))
-                txt = ["V"]
+                # the symbol's NAME must not matter: rotate (by cell) through names built from register letters that are no
+                # register names, besides the plain one
+                nm = EQU_NAMES[sum(ord(c) for c in cell["id"]) % len(EQU_NAMES)]
+                lines.append(env.text(nm + " EQU ", txt, "\n"))
+                txt = [nm]
         for piece in _split(tmpl):
             if piece == "{n}":
                 parts.extend(txt)
